@@ -79,9 +79,11 @@ CLAIMED['C05'] = dict(
          'order with the signal\'s own magnitudes, that fewer than two extrema give no envelope, that the re-padding loop terminates, that padding only '
          'adds mirrored (odd-reflected) extrema beyond both ends leaving the interior ones unaltered, strictly ordered in time and covering both edges '
          'for pad width >= 1, hence that the envelope is evaluated at exactly the integer sample times 0..N-1, also for refined (rational) extrema '
-         'locations with the repaired grid; the parabolic vertex stays within half a sample of its peak. The interpolants (FITPACK splrep/splev, PCHIP) '
-         'are oracles: that the envelope equals the interpolant through the returned extrema at the sample times, and passes through unrefined '
-         'extrema, is checked by the oracle on real signals x 3 methods x 3 modes x parabolic on/off (tolerance 1e-9), not proved.',
+         'locations with the repaired grid; the parabolic vertex stays within half a sample of its peak. With the interpolant (FITPACK splrep/splev, PCHIP) '
+         'as an ORACLE the envelope itself is proved to exist iff there are >= 2 extrema of its kind, to have one value per sample equal to the '
+         'interpolant through the padded extrema at that sample\'s integer time, and - under the contract that the interpolant passes through its '
+         'knots - to pass through every unrefined peak / trough. That scipy meets that contract and the values at the sample times are checked by the '
+         'oracle on real signals x 3 methods x 3 modes x parabolic on/off (tolerance 1e-9), not proved.',
     note=NOTE + ' np.pad and argrelextrema are modelled concretely and validated exhaustively; spline/PCHIP evaluation is an oracle.')
 
 CLAIMED['C04'] = dict(
@@ -103,7 +105,8 @@ CLAIMED['C01'] = dict(
          'cleared flag), and that when it ends because the extraction cleared its flag the components sum to the input exactly and the last one is '
          'the residual itself; the extraction contract (flag cleared => unmodified input without envelopes, or the energy threshold fired) is '
          'proved of get_next_imf as repaired and REFUTED with a witness for the code before the repair; the integer-vector instance meets all '
-         'hypotheses, and no envelope means fewer than two maxima or fewer than two minima (from C05). Exact arithmetic: "to within rounding" is '
+         'hypotheses; for the CONCRETE extrema layer (real detection and padding, any interpolant) the envelope pair is undefined iff the signal has fewer '
+         'than two strict maxima or fewer than two strict minima, hence a sift that ends of its own accord ends on a non-oscillatory residual. Exact arithmetic: "to within rounding" is '
          'the oracle\'s tolerance (1e-9) on real signals x all stop rules x steps x interpolation methods x pad widths.',
     note=NOTE + ' Termination of the OUTER loop is not claimed (it is not part of the property); runs that time out are discarded and counted.')
 
